@@ -177,8 +177,11 @@ def shaped_scenario(draw):
     else:
         P = par
     h = {"key": "h", "kind": "history", "hist": d.pick(["deep", "deep", "shallow"])}
-    if d.chance(25):
-        h["htarget"] = (["P", "W"] if wrap else ["P"]) + ["r1", "s1"]
+    if d.chance(40):
+        # a default target anywhere below P: a non-initial leaf, or the non-initial grandchild of a nested compound
+        opts = [[r["key"], "s1"] for r in regs]
+        opts += [[r["key"], "c", "c1"] for r in regs if any(c.get("key") == "c" for c in r["children"])]
+        h["htarget"] = (["P", "W"] if wrap else ["P"]) + d.pick(opts)
     P["children"].append(h)
     P["on"] = [["LEAVE", [{"target": ["O"], "actions": []}]]]
     O = {"key": "O", "kind": "atomic", "on": [["RESUME", [{"target": ["P", "h"], "actions": []}]]]}
@@ -194,7 +197,13 @@ def shaped_scenario(draw):
         hist.append(["send", t, seq[0]])
         seq[0] += 1
 
-    if root["initial"] == "O" or d.chance(30):
+    never = root["initial"] == "O" and d.chance(45)
+    if never:
+        # P has never been active: the history state's default target (or P's normal entry) applies
+        if d.chance(30):
+            hist.append(["restore"])
+        send("RESUME" if d.chance(65) else "RESUME2")
+    elif root["initial"] == "O" or d.chance(30):
         send("ENTER")
     for _ in range(d.int(1, 3)):
         for _ in range(d.int(1, 5)):
